@@ -15,7 +15,10 @@ import (
 	"math"
 	"strings"
 
+	"seehuhn.de/go/geom/matrix"
+	"seehuhn.de/go/postscript/type1"
 	"seehuhn.de/go/sfnt/cff"
+	"seehuhn.de/go/sfnt/glyph"
 )
 
 // ---------------------------------------------------------------- canonical output
@@ -2086,6 +2089,86 @@ func t2targeted(c *Ctx) []string {
 			}
 		}
 	}
+	// every operator form at its stack limit: the maximal run that fits 48 operands, with and without the optional
+	// leading (hh/vv) or trailing (hv/vh) operand, at limit-1, limit, limit+1 and 2*limit
+	for _, n := range []int{11, 12, 13, 24} {
+		for start := 0; start < 2; start++ {
+			for opt := 0; opt < 2; opt++ {
+				fl := r.Intn(3)
+				// hhcurveto (start=0) / vvcurveto (start=1): all tangents aligned, the first curve may start obliquely
+				var segs [][]int
+				for i := 0; i < n; i++ {
+					s := curve(fl, start, start)
+					if i == 0 && opt == 1 {
+						s[1-start] = nz(fl) // dy1 (hh) / dx1 (vv): the optional leading operand
+					}
+					segs = append(segs, s)
+				}
+				c.Stat("t2enc.family", fmt.Sprintf("stack-limit/%s n=%d lead=%d", []string{"hhcurveto", "vvcurveto"}[start], n, opt))
+				out = append(out, t2plain(t2fromDeltas(nz(0), nz(0), segs)))
+				// hvcurveto (start=0) / vhcurveto (start=1): alternating, the last curve may end obliquely
+				segs = nil
+				for i := 0; i < n; i++ {
+					h := (i+start)%2 == 0
+					var s []int
+					if h {
+						s = curve(fl, 0, 1)
+					} else {
+						s = curve(fl, 1, 0)
+					}
+					if i == n-1 && opt == 1 {
+						if h {
+							s[4] = nz(fl) // dxf: the optional trailing operand
+						} else {
+							s[5] = nz(fl)
+						}
+					}
+					segs = append(segs, s)
+				}
+				c.Stat("t2enc.family", fmt.Sprintf("stack-limit/%s n=%d trail=%d", []string{"hvcurveto", "vhcurveto"}[start], n, opt))
+				out = append(out, t2plain(t2fromDeltas(nz(0), nz(0), segs)))
+			}
+		}
+	}
+	obl := func(fl int) []int { return []int{nz(fl), nz(fl), nz(fl), nz(fl), nz(fl), nz(fl)} }
+	for _, n := range []int{7, 8, 9, 16} { // rrcurveto: 8 curves = 48 operands; rcurveline: 7 curves + line = 44, 8 + line = 50
+		for tail := 0; tail < 2; tail++ {
+			fl := r.Intn(3)
+			var segs [][]int
+			for i := 0; i < n; i++ {
+				segs = append(segs, obl(fl))
+			}
+			if tail == 1 {
+				segs = append(segs, []int{nz(fl), nz(fl)})
+			}
+			c.Stat("t2enc.family", fmt.Sprintf("stack-limit/rrcurveto-rcurveline n=%d line=%d", n, tail))
+			out = append(out, t2plain(t2fromDeltas(nz(0), nz(0), segs)))
+		}
+	}
+	for _, n := range []int{20, 21, 22, 42} { // rlinecurve: 21 lines + curve = 48 operands
+		fl := r.Intn(3)
+		var segs [][]int
+		for i := 0; i < n; i++ {
+			segs = append(segs, []int{nz(fl), nz(fl)})
+		}
+		segs = append(segs, obl(fl))
+		c.Stat("t2enc.family", fmt.Sprintf("stack-limit/rlinecurve n=%d", n))
+		out = append(out, t2plain(t2fromDeltas(nz(0), nz(0), segs)))
+	}
+	for _, n := range []int{96, 97} { // hlineto / vlineto: 48 operands per operator
+		for start := 0; start < 2; start++ {
+			var segs [][]int
+			for i := 0; i < n; i++ {
+				if (i+start)%2 == 0 {
+					segs = append(segs, []int{nz(0), 0})
+				} else {
+					segs = append(segs, []int{0, nz(0)})
+				}
+			}
+			c.Stat("t2enc.family", fmt.Sprintf("stack-limit/alternating-lines n=%d", n))
+			out = append(out, t2plain(t2fromDeltas(nz(0), nz(0), segs)))
+		}
+	}
 	// (c) alternating h/v line runs of odd and even length, around the stack limit, with and without a break
 	for _, n := range []int{1, 2, 3, 4, 5, 6, 7, 23, 24, 25, 47, 48, 49, 50} {
 		for start := 0; start < 2; start++ {
@@ -2655,5 +2738,135 @@ func genT2cff(c *Ctx) {
 		if strings.HasPrefix(out, "readerr") || strings.HasPrefix(out, "panic") {
 			c.Stat("t2cff.ALARM", out)
 		}
+	}
+}
+
+// ================================================================ C04: font level (stream t2.fontw, area t2font)
+//
+// D t2.fontw: a cff.Font with a chosen multiset of advance widths is written by the real (*cff.Font).Write
+// (selectWidths, makePrivateDict, encodeCharString together); the Lean side reads the written file independently
+// (INDEX, Top DICT, Private DICT defaultWidthX / nominalWidthX, CharStrings) and runs the specification
+// interpreter on every charstring: the widths it finds must be the glyphs' widths.
+//   widths=<16.16 units,…> file=<hex of the written CFF>
+
+func t2widthFont(widths []int64) *cff.Font {
+	font := &cff.Font{
+		FontInfo: &type1.FontInfo{
+			FontName:   "W",
+			FontMatrix: matrix.Matrix{0.001, 0, 0, 0.001, 0, 0},
+		},
+		Outlines: &cff.Outlines{
+			Private:  []*type1.PrivateDict{{BlueScale: 0.039625, BlueShift: 7, BlueFuzz: 1}},
+			FDSelect: func(glyph.ID) int { return 0 },
+		},
+	}
+	for i, w := range widths {
+		name := ".notdef"
+		if i > 0 {
+			name = fmt.Sprintf("g%d", i)
+		}
+		g := cff.NewGlyph(name, float64(w)/65536)
+		g.MoveTo(10, 10)
+		g.LineTo(110, 20)
+		g.LineTo(60, 120)
+		font.Glyphs = append(font.Glyphs, g)
+	}
+	font.Encoding = cff.StandardEncoding(font.Glyphs)
+	return font
+}
+
+func t2writeWidthFont(widths []int64) ([]byte, error) {
+	buf := &bytes.Buffer{}
+	err := t2widthFont(widths).Write(buf)
+	return buf.Bytes(), err
+}
+
+func init() {
+	ops["t2.fontw"] = func(f Fields) string {
+		var ws []int64
+		for _, p := range f.List("widths", ",") {
+			var w int64
+			fmt.Sscan(p, &w)
+			ws = append(ws, w)
+		}
+		data, err := t2writeWidthFont(ws)
+		if err != nil {
+			return "writeerr:" + strings.ReplaceAll(err.Error(), " ", "_")
+		}
+		if hx(data) != f["file"] {
+			return "stale-file"
+		}
+		return f["widths"]
+	}
+	areas["t2font"] = genT2font
+}
+
+func genT2font(c *Ctx) {
+	r := c.Rng
+	emit := func(kind string, ws []int64) {
+		c.Stat("t2font.family", kind)
+		c.Stat("t2font.glyphs", bucket(len(ws)))
+		units := make([]int64, len(ws))
+		parts := make([]string, len(ws))
+		for i, w := range ws {
+			units[i] = w
+			parts[i] = fmt.Sprint(w)
+		}
+		var data []byte
+		msg := guard(func() string {
+			var err error
+			data, err = t2writeWidthFont(units)
+			if err != nil {
+				return "writeerr"
+			}
+			return ""
+		})
+		if msg != "" {
+			c.Stat("t2font.write-failed", msg)
+		}
+		c.Case(Direct, "t2.fontw", "widths="+strings.Join(parts, ",")+" file="+hx(data), true)
+	}
+	u := func(v int) int64 { return int64(v) * 65536 }
+	rep := func(w int64, n int) []int64 {
+		out := make([]int64, n)
+		for i := range out {
+			out[i] = w
+		}
+		return out
+	}
+	// fixed families (every run)
+	for _, W := range []int{600, 250, 1000, 0, 108} {
+		for _, d := range []int{-107, -108, 107, 108, -1131, -1132, 1131, 1132, -1, 1, -500} {
+			// nominal is pulled to min+107 / max-107: with a single explicit width W-107 it coincides with the default
+			emit(fmt.Sprintf("k*default + one explicit at default%+d", d), append(rep(u(W), 3), u(W+d)))
+			emit(fmt.Sprintf("k*default + explicit at default%+d and another", d), append(rep(u(W), 3), u(W+d), u(W+d/2+3)))
+		}
+		emit("all widths equal", rep(u(W), 4))
+		emit("single glyph", []int64{u(W)})
+		emit("single glyph, fractional", []int64{u(W) + 32768})
+		emit("default + fractional explicit", append(rep(u(W), 3), u(W)-107*65536+32768))
+		emit("two widths, tie for most frequent", []int64{u(W), u(W + 120), u(W), u(W + 120)})
+	}
+	emit("most frequent width 0, explicit 107", []int64{0, 0, 0, u(107)})
+	emit("most frequent width 0, explicit -107", []int64{0, 0, 0, u(-107)})
+	emit("nominal would be 0", []int64{u(500), u(500), u(-107), u(107)})
+	// random multisets
+	for i := 0; i < c.N; i++ {
+		n := r.Range(1, 7)
+		base := r.Range(0, 1200)
+		ws := make([]int64, n)
+		for j := range ws {
+			switch r.Intn(5) {
+			case 0, 1:
+				ws[j] = u(base)
+			case 2:
+				ws[j] = u(base + Pick(r, []int{-107, -108, 107, 108, -214, 214, -1131, 1131, 1132}))
+			case 3:
+				ws[j] = u(r.Range(0, 2000))
+			default:
+				ws[j] = u(r.Range(0, 2000)) + int64(r.Range(0, 3))*16384
+			}
+		}
+		emit("random multiset", ws)
 	}
 }
